@@ -41,6 +41,27 @@ CLAIMS = {
   text="Deductive proof of the listener-side gating: (1) the request handed to certificate generation on the authenticate branch never has skip-verification set, whatever bytes the peer sent (call-site assertion), (2) certificate generation succeeds only against a stored record whose key signed the nonce (C05 clauses, by key id or node id), (3) the TLS configuration is built with the expected public key equal to the verified request's certificate key, and the fetch waiver option is added on the fetch branch only, (4) Accept never returns a connection whose negotiated protocol has the fetch prefix.",
   note="Trusted: crypto/tls semantics (a completed server handshake used the returned config, ran VerifyConnection and negotiated a protocol from NextProtos), tls.ServerConfig / standardTlsConfig's VerifyConnection closure behind a trusted contract (not yet verified: leaf.Verify against the valid roots and SubjectKeyId == expected key), idealised crypto, ghost storage. The fall-through to the base TLS configuration is not covered.",
   design="5 C02", technique="contracts + call-site assertions over go/ssa, SMT"),
+
+ "C01": dict(
+  text="Deductive proof over the real registration.FetchNodeCredentials, AuthorizeNode, authorizeNodeCommon, validateServerLedActivationToken and validateFetchRequestCommon, for an arbitrary storage state (hence every history of operator actions) and every well-signed request: credentials are returned only if (a) storage already held a record under the request's key id with the same nonce, encryption key and certificate key, or (b) the nonce decodes to an activation token whose record existed and is removed by this call, for a key without a record, or (c) the request carries registration info opened by the configured registration wrapper that matches nonce and certificate key, or re-wrapped info with an existing record under the re-wrapping key id; a node-led request never changes storage, an unauthorized or failing request leaves every node record as it was, records of other key ids are never touched.",
+  note="Trusted: engine, go/ssa, solvers; ghost Storage contract in reliable mode (Load fails exactly on absent entries; the in-memory back end is not yet proved against it); idealised crypto and KMS wrapper (opens only what it sealed); protobuf decode model; key ids injective. In case (c, re-wrapped) only the existence of the re-wrapping record is stated (the link between the record's key and DecryptMessage goes through abstract key-source functions).",
+  design="5 C01", technique="contracts, WP over go/ssa, SMT (z3, cvc5)"),
+ "C06": dict(
+  text="Deductive proof over the real validateServerLedActivationToken, CreateServerLedActivationToken, ServerLedActivationToken.Store and LoadServerLedActivationToken: a token validates only if its record existed, the call removes it, the creation instant - taken from the sealed value when the record is sealed, with the token id as additional data - plus the configured lifetime is not before the clock reading, and the key had no node record; on any error no node record changes; the stored record is keyed by base58(HMAC(key, nonce)) of two fresh 32-byte values and holds id, state and creation time only.",
+  note="Trusted: engine, go/ssa, solvers; HMAC / base58 injective (one-wayness is a cryptographic assumption, not proved); KMS wrapper idealisation; reliable storage for the 'key without record' clause. Single use across calls follows from 'validates only if the record exists' + 'success removes it' (no separate multi-call lemma).",
+  design="5 C06", technique="contracts, WP over go/ssa, SMT"),
+ "C10": dict(
+  text="Deductive proof over the real rotation.RotateNodeCredentials: the inner request is passed on only after DecryptMessage succeeded under a key source cloned from a record loaded from storage (by key id, or one of the records of the node id); the new key is authorized with exactly that record's state; the reply is encrypted with that record as key source; the same decrypted request is used for authorize and fetch; records that existed at entry are never modified and no token changes; success requires the named record to exist (key-id path).",
+  note="Trusted: engine, go/ssa, solvers; DecryptMessage / EncryptMessage / AuthorizeNode / FetchNodeCredentials contracts (proved under C11 / C01); node-id lookup through the trusted LoadNodeInformationSetByNodeId contract; the replay clause is not proved as a two-call lemma (it follows informally from AuthorizeNode refusing a key that has a record).",
+  design="5 C10", technique="contracts + call-site assertions + loop invariant, WP over go/ssa, SMT"),
+ "C12": dict(
+  text="Deductive proof over the four Store methods and the Load functions: with a storage wrapper every listed secret field handed to Storage.Store is the wrapper's sealing of the clear value under the record-binding additional data (relational clause: exists nonce with stored ciphertext == Enc(w, clear, aad)), the record is marked with the wrapper's non-empty key id, the caller's struct keeps its clear values; loading unseals with the additional data of the loaded record, fails without a wrapper, and ghost lemmas prove store-then-load identity and that a sealed field transplanted from a record with different additional data does not open. Two open known findings: the retained previous encryption private key (PreviousEncryptionKey.PrivateKeyPkcs8) is stored in clear by NodeInformation.Store and NodeCredentials.Store.",
+  note="Trusted: engine, go/ssa, solvers; KMS wrapper idealisation (Decrypt opens exactly what Encrypt produced under the same additional data); protobuf model. Known findings are listed in known_findings.json and printed as KNOWN-FINDING lines.",
+  design="5 C12", technique="contracts + ghost lemmas, WP over go/ssa, SMT"),
+ "C13": dict(
+  text="The same contracts re-verified with the Storage contract in fault mode: every Store / Load / Remove / LoadByNodeId may fail on every path with an arbitrary error (including a spurious not-found). Proved for authorize, fetch (three modes), token creation, root rotation, node rotation and server-certificate generation: an error returns nothing; success implies the returned roots / node record / token are the stored ones; a node record is created by the token flow only after the token record is gone; records of other ids are never altered, a failed call alters none.",
+  note="Trusted: engine, go/ssa, solvers; each storage operation is atomic; node-side functions (NewNodeCredentials, HandleFetchNodeCredentialsResponse) are not under contract yet.",
+  design="5 C13", technique="contracts under a nondeterministically failing Storage contract, WP over go/ssa, SMT"),
 }
 
 NA = {
